@@ -98,6 +98,7 @@ pub proof fn lemma_ashr_facts(w: nat, a: nat, amount: nat, s: nat)
         sval(w, a) >= 0 ==> (a / pow2(s)) % pow2(w) == bv_ashr(w, a, amount),
         sval(w, a) < 0 ==> (((pow2(w) - 1) as nat) * pow2((w - s) as nat) + a / pow2(s)) % pow2(w) == bv_ashr(w, a, amount),
 {
+    reveal(bv_ashr);
     let h = pow2((w - 1) as nat);
     let q = a / pow2(s);
     let t = pow2((w - s) as nat);
@@ -159,6 +160,7 @@ pub proof fn lemma_sext_facts(w: nat, w2: nat, a: nat)
         w < w2 && sval(w, a) >= 0 ==> a % pow2(w2) == bv_sext(w, w2, a),
         w < w2 && sval(w, a) < 0 ==> (((pow2(w2) - 1) as nat) * pow2(w) + a) % pow2(w2) == bv_sext(w, w2, a),
 {
+    reveal(bv_sext);
     let h = pow2((w - 1) as nat);
     lemma_pow2_step((w - 1) as nat);
     lemma_pow2_pos(w);
@@ -227,6 +229,7 @@ pub proof fn lemma_sdiv_facts(w: nat, a: nat, b: nat)
                  && nat_xor((-m) as nat, (pow2(w) - 1) as nat) == pow2(w) - 1 + m
                  && ((pow2(w) + m) as nat) % pow2(w) == bv_mods(w, a, b) }),
 {
+    reveal(bv_divs); reveal(bv_mods);
     lemma_sval_range(w, a);
     lemma_sval_range(w, b);
     lemma_pow2_pos((w - 1) as nat);
@@ -335,6 +338,8 @@ impl Constant {
     ensures
         /*@sort*/ self.bits != rhs.bits ==> is_sort_err(r),
         /*@value*/ self.bits == rhs.bits ==> is_const(r, self.bits as nat, bv_add(self.bits as nat, self.value@, rhs.value@)),
+//@ enter
+    proof { reveal(bv_add); }
 //@ end
 
 //@ fn impl Constant :: fn sub
@@ -343,6 +348,8 @@ impl Constant {
     ensures
         /*@sort*/ self.bits != rhs.bits ==> is_sort_err(r),
         /*@value*/ self.bits == rhs.bits ==> is_const(r, self.bits as nat, bv_sub(self.bits as nat, self.value@, rhs.value@)),
+//@ enter
+    proof { reveal(bv_sub); }
 //@ before 0 `let lhs = lhs |`
     proof {
         let w = self.bits as nat;
@@ -358,6 +365,8 @@ impl Constant {
     ensures
         /*@sort*/ self.bits != rhs.bits ==> is_sort_err(r),
         /*@value*/ self.bits == rhs.bits ==> is_const(r, self.bits as nat, bv_mul(self.bits as nat, self.value@, rhs.value@)),
+//@ enter
+    proof { reveal(bv_mul); }
 //@ end
 
 //@ fn impl Constant :: fn divu
@@ -367,6 +376,8 @@ impl Constant {
         /*@sort*/ self.bits != rhs.bits ==> is_sort_err(r),
         /*@div0*/ self.bits == rhs.bits && rhs.value@ == 0 ==> is_div0_err(r),
         /*@value*/ self.bits == rhs.bits && rhs.value@ != 0 ==> is_const(r, self.bits as nat, bv_divu(self.bits as nat, self.value@, rhs.value@)),
+//@ enter
+    proof { reveal(bv_divu); }
 //@ before 0 `Ok(Constant::new_big(`
     proof {
         lemma_div_is_ordered_by_denominator(self.value@ as int, 1, rhs.value@ as int);
@@ -383,6 +394,8 @@ impl Constant {
         /*@sort*/ self.bits != rhs.bits ==> is_sort_err(r),
         /*@div0*/ self.bits == rhs.bits && rhs.value@ == 0 ==> is_div0_err(r),
         /*@value*/ self.bits == rhs.bits && rhs.value@ != 0 ==> is_const(r, self.bits as nat, bv_modu(self.bits as nat, self.value@, rhs.value@)),
+//@ enter
+    proof { reveal(bv_modu); }
 //@ before 0 `Ok(Constant::new_big(`
     proof {
         lemma_mod_bound(self.value@ as int, rhs.value@ as int);
@@ -396,6 +409,8 @@ impl Constant {
     ensures
         /*@sort*/ self.bits != rhs.bits ==> is_sort_err(r),
         /*@value*/ self.bits == rhs.bits ==> is_const(r, self.bits as nat, bv_and(self.bits as nat, self.value@, rhs.value@)),
+//@ enter
+    proof { reveal(bv_and); }
 //@ before 0 `Ok(Constant::new_big(`
     proof {
         lemma_and_le(self.value@, rhs.value@);
@@ -409,6 +424,8 @@ impl Constant {
     ensures
         /*@sort*/ self.bits != rhs.bits ==> is_sort_err(r),
         /*@value*/ self.bits == rhs.bits ==> is_const(r, self.bits as nat, bv_or(self.bits as nat, self.value@, rhs.value@)),
+//@ enter
+    proof { reveal(bv_or); }
 //@ before 0 `Ok(Constant::new_big(`
     proof {
         lemma_or_bound(self.value@, rhs.value@, self.bits as nat);
@@ -422,6 +439,8 @@ impl Constant {
     ensures
         /*@sort*/ self.bits != rhs.bits ==> is_sort_err(r),
         /*@value*/ self.bits == rhs.bits ==> is_const(r, self.bits as nat, bv_xor(self.bits as nat, self.value@, rhs.value@)),
+//@ enter
+    proof { reveal(bv_xor); }
 //@ before 0 `Ok(Constant::new_big(`
     proof {
         lemma_xor_bound(self.value@, rhs.value@, self.bits as nat);
@@ -435,6 +454,8 @@ impl Constant {
     ensures
         /*@sort*/ self.bits != rhs.bits ==> is_sort_err(r),
         /*@value*/ self.bits == rhs.bits ==> is_const(r, 1, bv_cmpeq(self.value@, rhs.value@)),
+//@ enter
+    proof { reveal(bv_cmpeq); }
 //@ before 0 `if self.bits() != rhs.bits()`
     proof { lemma2_to64(); }
 //@ end
@@ -445,6 +466,8 @@ impl Constant {
     ensures
         /*@sort*/ self.bits != rhs.bits ==> is_sort_err(r),
         /*@value*/ self.bits == rhs.bits ==> is_const(r, 1, bv_cmpneq(self.value@, rhs.value@)),
+//@ enter
+    proof { reveal(bv_cmpneq); }
 //@ before 0 `if self.bits() != rhs.bits()`
     proof { lemma2_to64(); }
 //@ end
@@ -455,6 +478,8 @@ impl Constant {
     ensures
         /*@sort*/ self.bits != rhs.bits ==> is_sort_err(r),
         /*@value*/ self.bits == rhs.bits ==> is_const(r, 1, bv_cmpltu(self.value@, rhs.value@)),
+//@ enter
+    proof { reveal(bv_cmpltu); }
 //@ before 0 `if self.bits() != rhs.bits()`
     proof { lemma2_to64(); }
 //@ end
@@ -465,6 +490,8 @@ impl Constant {
     ensures
         /*@sort*/ self.bits != rhs.bits ==> is_sort_err(r),
         /*@value*/ self.bits == rhs.bits ==> is_const(r, 1, bv_cmplts(self.bits as nat, self.value@, rhs.value@)),
+//@ enter
+    proof { reveal(bv_cmplts); }
 //@ before 0 `if self.bits() != rhs.bits()`
     proof { lemma2_to64(); }
 //@ end
@@ -475,6 +502,8 @@ impl Constant {
     ensures
         /*@sort*/ bits >= self.bits ==> is_sort_err(r),
         /*@value*/ bits < self.bits ==> is_const(r, bits as nat, bv_trun(bits as nat, self.value@)),
+//@ enter
+    proof { reveal(bv_trun); }
 //@ end
 
 //@ fn impl Constant :: fn zext
@@ -483,6 +512,8 @@ impl Constant {
     ensures
         /*@sort*/ bits <= self.bits ==> is_sort_err(r),
         /*@value*/ self.bits < bits ==> is_const(r, bits as nat, bv_zext(self.value@)),
+//@ enter
+    proof { reveal(bv_zext); }
 //@ before 0 `Ok(Constant::new_big(`
     proof {
         lemma_pow2_strictly_increases(self.bits as nat, bits as nat);
@@ -496,6 +527,8 @@ impl Constant {
     ensures
         /*@sort*/ self.bits != rhs.bits ==> is_sort_err(r),
         /*@value*/ self.bits == rhs.bits ==> is_const(r, self.bits as nat, bv_shl(self.bits as nat, self.value@, rhs.value@)),
+//@ enter
+    proof { reveal(bv_shl); }
 //@ closure 0 |bits: usize| -> (r0: BigUint)
     requires self.wf(),
     ensures r0@ == (if bits >= self.bits { 0nat } else { self.value@ * pow2(bits as nat) }),
@@ -514,6 +547,8 @@ impl Constant {
     ensures
         /*@sort*/ self.bits != rhs.bits ==> is_sort_err(r),
         /*@value*/ self.bits == rhs.bits ==> is_const(r, self.bits as nat, bv_shr(self.bits as nat, self.value@, rhs.value@)),
+//@ enter
+    proof { reveal(bv_shr); }
 //@ closure 0 |bits: usize| -> (r0: BigUint)
     ensures r0@ == self.value@ / pow2(bits as nat),
 //@ closure 1 || -> (r1: BigUint)
@@ -532,6 +567,8 @@ impl Constant {
     ensures
         /*@sort*/ self.bits != rhs.bits ==> is_sort_err(r),
         /*@value*/ self.bits == rhs.bits ==> is_const(r, self.bits as nat, bv_ashr(self.bits as nat, self.value@, rhs.value@)),
+//@ enter
+    proof { reveal(bv_ashr); }
 //@ before 0 `let value = self.value.clone() >> bits`
     proof {
         lemma_ashr_facts(self.bits as nat, self.value@, rhs.value@, bits as nat);
@@ -550,6 +587,8 @@ impl Constant {
     ensures
         /*@sort*/ bits <= self.bits ==> is_sort_err(r),
         /*@value*/ self.bits < bits ==> is_const(r, bits as nat, bv_sext(self.bits as nat, bits as nat, self.value@)),
+//@ enter
+    proof { reveal(bv_sext); }
 //@ before 0 `let sign_bit`
     proof {
         lemma_sext_facts(self.bits as nat, bits as nat, self.value@);
@@ -571,6 +610,8 @@ impl Constant {
         /*@sort*/ self.bits != rhs.bits ==> is_sort_err(r),
         /*@div0*/ self.bits == rhs.bits && rhs.value@ == 0 ==> is_div0_err(r),
         /*@value*/ self.bits == rhs.bits && rhs.value@ != 0 ==> is_const(r, self.bits as nat, bv_divs(self.bits as nat, self.value@, rhs.value@)),
+//@ enter
+    proof { reveal(bv_divs); }
 //@ before 0 `let r = lhs / rhs`
     proof {
         lemma_sdiv_facts(self.bits as nat, self.value@, (*old_rhs).value@);
@@ -588,6 +629,8 @@ impl Constant {
         /*@sort*/ self.bits != rhs.bits ==> is_sort_err(r),
         /*@div0*/ self.bits == rhs.bits && rhs.value@ == 0 ==> is_div0_err(r),
         /*@value*/ self.bits == rhs.bits && rhs.value@ != 0 ==> is_const(r, self.bits as nat, bv_mods(self.bits as nat, self.value@, rhs.value@)),
+//@ enter
+    proof { reveal(bv_mods); }
 //@ before 0 `let lhs = self.to_bigint()`
     let ghost old_rhs = rhs;
 //@ before 0 `let r = lhs % rhs`
